@@ -257,6 +257,57 @@ def f3_build_time_rejection(F, r):
         r.fail("error codes -> negative entries", f"entries flagged by error_codes are not mapped to negative values in both vectors ({neg})", F.loc(ctc))
 
 
+SORTS = ("sort", "sort_by", "sort_by_key", "sort_unstable", "sort_unstable_by", "sort_unstable_by_key", "sort_by_cached_key")
+
+
+def t1_cosorted_timestamps(F, r):
+    """time-aware provider: the timestamp index is derived from the matrices AFTER they are sorted by timestamp (index i describes matrix i)"""
+    roots = [i for i in F.fns if i.startswith("vrp_core::models::problem::costs::TimeAwareMatrixTransportCost") and i.endswith("::new")]
+    if len(roots) != 1:
+        raise AnchorError(f"TimeAwareMatrixTransportCost::new resolves to {roots}")
+    root = roots[0]
+    fam = F.family(root)
+    sorts = []
+    for g in fam:
+        fn = F.fns[g]
+        for bi, t in mir.calls(fn):
+            last = t["callee"].split("::")[-1]
+            if last in SORTS and "slice" in t["callee"]:
+                sorts.append((g, bi, t))
+    md = [x for x in sorts if x[2]["ga"] and x[2]["ga"][0].endswith("::MatrixData")]
+    other = [x for x in sorts if x not in md]
+    for g, bi, t in other:
+        r.fail("TimeAware::new: separate sort", f"`{t['callee'].split('::')[-1]}` sorts a `{t['ga'][0] if t['ga'] else '?'}` collection on its own: the timestamp index is ordered independently of "
+               "the matrices, so index i no longer describes matrix i (values come from the wrong matrix for matrices supplied out of order)", F.loc(g, t["ln"]))
+    if not md:
+        r.fail("TimeAware::new: matrices sorted", "the matrices of a profile are no longer sorted by timestamp before the index is derived", F.loc(root))
+        return
+    for g, bi, t in md:
+        fn = F.fns[g]
+        # comparator / key closure reads `timestamp`
+        reads_ts = False
+        for c in F.children.get(root, []):
+            if c.startswith(g + "::") and any("timestamp" in [x[1] for x in mir.proj_fields(p)] for p in util.all_places(F.fns[c])):
+                reads_ts = True
+        if reads_ts:
+            r.ok("TimeAware::new: sort key", "matrices sorted by `timestamp`")
+        else:
+            r.fail("TimeAware::new: sort key", "the matrices are sorted by something other than `timestamp`", F.loc(g, t["ln"]))
+        # the u64 index is collected from the sorted vector, after the sort
+        recv = {(k, v) for k, v, pp in mir.trace(fn, t["args"][0])}
+        cols = [(bj, tt) for bj, tt in mir.calls(fn) if tt["callee"].endswith("Iterator::collect") and tt["ga"] and tt["ga"][-1].endswith("Vec<u64>")]
+        if not cols:
+            r.fail("TimeAware::new: index", "no `Vec<u64>` timestamp index is collected next to the sort", F.loc(g))
+            continue
+        for bj, tt in cols:
+            leaves, _ = mir.deep_leaves(fn, tt["args"][0])
+            src = {(k, v) for k, v, pp in leaves}
+            if (src & recv) and mir.dominates(fn, bi, bj):
+                r.ok("TimeAware::new: index", "timestamps are collected from the sorted matrices (sort dominates the collection)")
+            else:
+                r.fail("TimeAware::new: index", "the timestamp index is not collected from the sorted matrices after the sort", F.loc(g, tt["ln"]))
+
+
 def run(ctx):
     ctx.explanation = (
         "Sibling agreement of all TransportCost providers: duration methods (and their helpers within the type) read only duration data and apply the "
@@ -268,4 +319,10 @@ def run(ctx):
     ctx.run("C16-F1", "sibling field roles: duration/distance methods read their own data; scale only on durations", f1_field_roles, floor=18)
     ctx.run("C16-F1b", "pragmatic reader feeds MatrixData durations/distances from the right matrix fields", f1b_matrix_data_roles, floor=5)
     ctx.run("C16-F2", "index shape agreement: from * size + to in every provider", f2_index_shape, floor=8)
+    ctx.run("C16-T1", "time-aware provider: timestamp index co-sorted with the matrices", t1_cosorted_timestamps, floor=2)
+    try:
+        from . import c13
+        ctx.run("C13-F3", "scientific coordinate provider: rounding flag and like-coordinate pairing (symmetric, zero diagonal by construction)", c13.f3_rounding_flag, floor=2)
+    except (ImportError, AttributeError):
+        pass
     ctx.run("C16-F3", "build-time rejection: consistency checks present in every provider constructor", f3_build_time_rejection, floor=8)
